@@ -17,7 +17,7 @@ WRAPS = ["malloc", "realloc", "calloc", "free", "mmap", "munmap", "mprotect", "f
          "open64", "unlink", "close", "syscall"]
 
 WORKLOADS = ["W1x64", "W1x86", "W1a64", "W1r", "W2fin", "W2ser", "W3x64", "W3x86", "W3a64", "W3x64log", "W3a64log",
-             "W4", "W4dual", "W4multi", "W4dualfill", "W4nomemfd", "W5", "W5big", "W5s", "W6"]
+             "W4", "W4dual", "W4multi", "W4dualfill", "W4nomemfd", "W4far", "W4fardual", "W5", "W5big", "W5s", "W6"]
 COLD = ["W4", "W4dual", "W4nomemfd"]          # vm class additionally with NOTHING warmed up (one case per process)
 CLASSES = ["arena", "heap", "vm"]
 
